@@ -227,7 +227,8 @@ class InputDataStorage:
             if not 'name' in sample.keys():
                 current_sample_name = self.experiment_prefix + str(current_index)
             else:
-                current_sample_name = sample['name']
+                # YAML turns digit-only names and labels into numbers
+                current_sample_name = str(sample['name'])
             if current_sample_name in experiment_names:
                     new_sample_name = self.experiment_prefix + str(current_index)
                     if current_sample_name == new_sample_name:
@@ -254,7 +255,7 @@ class InputDataStorage:
                 for f in range(len(current_sample)):
                     fname = current_sample[f]
                     if names:
-                        readable_name = sample['labels'][f]
+                        readable_name = str(sample['labels'][f])
                     else:
                         readable_name = os.path.splitext(os.path.basename(fname))[0]
                     if fname in readable_names_dict[current_sample_name]:
